@@ -352,7 +352,7 @@ def run_case(sh, i, plan):
         for _ in range(6):
             redefinition_case(sh, rng)
         return
-    opts = U.Opts(depth=rng.choice([1, 2, 2, 3]))
+    opts = U.Opts(depth=rng.choice([1, 2, 2, 3]), flag_enums=False)
     prog = U.Program(rng)
     gen = U.Gen(prog, rng, opts)
     specs = [gen.type(opts.depth) for _ in range(rng.choice([2, 3, 4]))]
